@@ -83,11 +83,13 @@ def execute(c, tree):
     steps = []
     notes = []
 
-    olds = [[]]
+    olds = [list(p.objs)]          # the line objects of the last committed state
 
     def observe(committed):
         texts = p.get_text()
         ps = _parents(p) if committed else []
+        if committed:
+            olds[0] = list(p.objs)
         sr = _probe_search(p, None if committed else olds[0]) if tree else 3
         if tree and committed:
             # the property's own observation: the tree equals that of a fresh parse of the current text
@@ -104,7 +106,6 @@ def execute(c, tree):
     for op in c["ops"]:
         n = len(p.objs)
         before = p.get_text()
-        olds[0] = list(p.objs)
         k, s, kind = op["i"], op["s"], op["k"]
         lit = None
         raised = None
